@@ -23,6 +23,17 @@ from nsl.passes import (
 from nsl import LinearIR, WebAssembly
 from io import StringIO
 from typing import Optional
+import os as _verif_os
+
+# Verification hooks (honoured only when NSL_VERIF=1): pass / stage events are
+# appended to a list installed by the verification harness.
+_verif_enabled = _verif_os.environ.get("NSL_VERIF") == "1"
+_verif_events = None
+
+
+def _verif_emit(*event):
+    if _verif_enabled and _verif_events is not None:
+        _verif_events.append(event)
 
 
 class Compiler:
@@ -75,9 +86,12 @@ class Compiler:
 
     def __RunPass(self, data, passIndex, p, kind, debug=False):
         buffer = StringIO()
+        _verif_emit("pass-begin", kind, passIndex, p.Name)
         if not p.Process(data, output=buffer):
+            _verif_emit("pass-fail", kind, passIndex, p.Name)
             print(f"Error in {kind} pass {p.GetName()}")
             return False
+        _verif_emit("pass-ok", kind, passIndex, p.Name)
 
         if debug and buffer.getvalue():
             outputFilename = f"{kind.lower()}-pass-{passIndex}-{p.Name}.txt"
@@ -93,31 +107,38 @@ class Compiler:
         debugPasses = options.get("debug-passes", False)
         optimizations = options.get("optimize", False)
 
+        _verif_emit("stage", "parse", bool(optimizations))
         ast = self.parser.Parse(source, debug=debugParsing)
+        _verif_emit("stage", "parsed")
         for i, p in enumerate(self.astPasses):
             if not self.__RunPass(ast, i, p, "AST", debugPasses):
                 return None
 
         # Done with the AST, we need to lower to IR now
         lowerPass = LowerToIR.GetPass()
+        _verif_emit("stage", "lower")
         if not lowerPass.Process(ast):
             print("Failed to lower AST to IR")
             return None
 
         irModule = lowerPass.Visitor.Module
+        _verif_emit("stage", "lowered")
 
         for i, p in enumerate(self.irPasses):
             if not optimizations and p.Flags & PassFlags.IsOptimization:
+                _verif_emit("pass-skip", "IR", i, p.Name)
                 continue
 
             if not self.__RunPass(irModule, i, p, "IR", debugPasses):
                 return None
 
         if options.get("wasm", False):
+            _verif_emit("stage", "wasm")
             wasmPass = GenerateWasm.GetPass()
             wasmPass.Process(irModule)
             wasmModule = wasmPass.Visitor.Finalize()
         else:
             wasmModule = None
 
+        _verif_emit("stage", "done")
         return Compiler.Result(irModule=irModule, wasmModule=wasmModule)
